@@ -7,8 +7,10 @@ The engine tag on the `case` line (c01 / c02 / c03) selects which property's ora
 import IsoVerif.Model.Util
 import IsoVerif.Model.Pico
 import IsoVerif.Model.PicoOracle
+import IsoVerif.Model.PicoIntern
+import IsoVerif.Model.PicoSpec
 
-open IsoVerif IsoVerif.Util IsoVerif.Pico IsoVerif.Pico.Oracle
+open IsoVerif IsoVerif.Util IsoVerif.Pico IsoVerif.Pico.Oracle IsoVerif.Pico.Intern
 
 def fuelD : Nat := 48
 
@@ -108,9 +110,12 @@ structure St where
   hadPanic : Bool
   absentRead : List Key
   removed : List Key
+  layer : Layer
+  /-- so far every call found every stored node (and the called node) strictly evaluable from scratch -/
+  cleanSoFar : Bool
 
 def St.init : St :=
-  ⟨"c01", [], Storage.init 10 0, Ideal.init, GcSpec.init 10, [], false, [], []⟩
+  ⟨"c01", [], Storage.init 10 0, Ideal.init, GcSpec.init 10, [], false, [], [], Layer.init, true⟩
 
 def isPresent (σ : Srcs) (k : Key) : Bool := (alookup σ.vals k).isSome
 
@@ -262,6 +267,20 @@ def handle (st : St) (fs : List String) : St × String :=
     match parseProg fns with
     | some P => ({ st with P := P, s := Storage.init st.s.cap P.length, implRuns := List.replicate P.length 0 }, "ok\tok")
     | none => (st, "bad-op\tok")
+  | ["where", vS] =>
+    if impl == ["dead"] || st.s.poisoned then (st, "dead\tok") else
+    let v := vS.toNat?.getD 0
+    let ans := match whereIs st.s st.layer v with
+      | .noref => "noref"
+      | .missing => "panic:missing"
+      | .inNode n => s!"in {n.fn} {n.arg}"
+      | .none => "none"
+    -- C03: an interned reference obtained from a promised query must still point into a live value
+    let holders := st.g.promised.filter (fun p => (fnOf st.P p.1.fn).kind == 3 &&
+      (match alookup st.I.nodes p.1 with | some nd => nd.val == v | none => false))
+    let bad := !holders.isEmpty && (impl == ["none"] || impl == ["panic:missing"])
+    let verdict := if st.engine == "c03" && bad then "bad:intern-ref-dangling" else "ok"
+    (st, ans ++ "\t" ++ verdict)
   | _ =>
     match parseOp req with
     | none => (st, "bad-op\tok")
@@ -269,7 +288,9 @@ def handle (st : St) (fs : List String) : St × String :=
       -- the model
       let ((s' : Storage), (o : Out)) := step fuelD st.P st.s op
       let isCall := match op with | .call _ _ => true | _ => false
+      let layer' := Layer.step st.P st.s s' op st.layer
       let modelAns := outStr o isCall s'.runs
+      let st := { st with layer := layer' }
       if impl == ["dead"] then ({ st with s := s' }, modelAns ++ "\tok") else
       -- the oracles' own bookkeeping
       let I0 : Ideal := { st.I with ran := [], opn := st.I.opn + 1 }
@@ -284,7 +305,10 @@ def handle (st : St) (fs : List String) : St × String :=
         let id := nodeOf st.P f a
         let (I2, r) := visit fuelD st.P I1 id
         let I2 := { I2 with stack := [], tainted := I2.tainted || (match r with | .panic _ => true | _ => false) }
+        let strictOk (n : NodeId) : Bool := match evalSS fuelD st.P I2.σ.vals I2.σ.maps [] n with | .ok _ => true | .panic _ => false
+        let cleanNow := st.cleanSoFar && strictOk id && st.s.derived.all (fun p => strictOk p.1)
         let (v1, mismatch) := c01Call st I2 id impl
+        let v1 := if mismatch && cleanNow then v1 ++ ":CLEAN" else v1
         let v2 := c02Call st I2 s' impl
         let (g', v3) := c03 st I2 op impl changed
         let implPanic := match implRes impl with | some (.inr _) => true | _ => false
@@ -300,7 +324,7 @@ def handle (st : St) (fs : List String) : St × String :=
         let I3 := { I2 with tainted := I2.tainted || mismatch || implPanic || drift }
         -- when a GC dropped nodes the ideal memoiser cannot know; nodes the model no longer holds are forgotten after gc (see gc below)
         let st' := { st with s := s', I := I3, g := g', implRuns := (implRunsOf impl).getD st.implRuns,
-                             hadPanic := st.hadPanic || implPanic, absentRead := absentNow ++ st.absentRead, removed := removed }
+                             cleanSoFar := cleanNow, hadPanic := st.hadPanic || implPanic, absentRead := absentNow ++ st.absentRead, removed := removed }
         let verdict := match st.engine with
           | "c01" => v1 | "c02" => v2 | "c03" => v3
           | _ => if v1 != "ok" then v1 else if v2 != "ok" then v2 else v3
